@@ -21,24 +21,37 @@ use std::collections::{BTreeMap, HashMap};
 pub const BUILDER: &str = "CreateTableBuilder";
 pub const STATEMENT: &str = "Statement";
 
+/// Source text of a syntax node, independent of the formatting of the source: tokens are
+/// joined without blanks except between two word-like tokens; literals are kept verbatim.
 pub fn text<T: ToTokens>(t: &T) -> String {
-    let s = t.to_token_stream().to_string();
-    // token-stream printing separates tokens by blanks; normalise so that formatting of the
-    // source cannot change the text
-    let mut out = String::new();
-    let cs: Vec<char> = s.chars().collect();
-    for (i, c) in cs.iter().enumerate() {
-        if *c == ' ' {
-            let p = if i > 0 { cs[i - 1] } else { ' ' };
-            let n = if i + 1 < cs.len() { cs[i + 1] } else { ' ' };
+    fn go(ts: proc_macro2::TokenStream, out: &mut String) {
+        for tt in ts {
+            let piece = match &tt {
+                proc_macro2::TokenTree::Group(g) => {
+                    let (o, c) = match g.delimiter() {
+                        proc_macro2::Delimiter::Parenthesis => ("(", ")"),
+                        proc_macro2::Delimiter::Brace => ("{", "}"),
+                        proc_macro2::Delimiter::Bracket => ("[", "]"),
+                        proc_macro2::Delimiter::None => ("", ""),
+                    };
+                    out.push_str(o);
+                    go(g.stream(), out);
+                    out.push_str(c);
+                    continue;
+                }
+                other => other.to_string(),
+            };
             let wordy = |x: char| x.is_alphanumeric() || x == '_' || x == '"' || x == '\'';
-            if wordy(p) && wordy(n) {
-                out.push(' ');
+            if let (Some(a), Some(b)) = (out.chars().last(), piece.chars().next()) {
+                if wordy(a) && wordy(b) {
+                    out.push(' ');
+                }
             }
-            continue;
+            out.push_str(&piece);
         }
-        out.push(*c);
     }
+    let mut out = String::new();
+    go(t.to_token_stream(), &mut out);
     out
 }
 
@@ -461,7 +474,21 @@ fn routing_json(key: &str, fields: &[(String, Sym)], obl: &mut Vec<Value>) -> Va
     Value::Array(v)
 }
 
-fn struct_fields(s: &syn::ItemStruct) -> Vec<Value> {
+/// `#[cfg(..)]` on a field makes the field list configuration dependent: an obligation
+fn cfg_gated_fields(s: &syn::ItemStruct, obl: &mut Vec<Value>) {
+    if let syn::Fields::Named(n) = &s.fields {
+        for f in &n.named {
+            if f.attrs.iter().any(|a| a.path().is_ident("cfg")) {
+                let name = f.ident.as_ref().unwrap().to_string();
+                obl.push(json!({"key": format!("struct:{}.{}", s.ident, name), "what": "cfg-gated field", "text": name}));
+            }
+        }
+    } else {
+        obl.push(json!({"key": format!("struct:{}", s.ident), "what": "not a struct with named fields", "text": ""}));
+    }
+}
+
+fn struct_fields(s: &syn::ItemStruct) -> Value {
     let mut v = vec![];
     if let syn::Fields::Named(n) = &s.fields {
         for f in &n.named {
@@ -535,6 +562,7 @@ pub fn translate(repo: &str) -> Value {
     let builder_fields = match &f.builder_struct {
         Some((file, s)) => {
             out.insert("builder_file".into(), json!(file));
+            cfg_gated_fields(s, &mut obl);
             struct_fields(s)
         }
         None => {
@@ -664,6 +692,7 @@ pub fn translate(repo: &str) -> Value {
         out.insert("stmt_struct".into(), json!(stmt_struct_name));
         out.insert("stmt_file".into(), json!(cands[0].0));
         out.insert("stmt_fields".into(), struct_fields(&cands[0].1));
+        cfg_gated_fields(&cands[0].1, &mut obl);
     } else {
         obl.push(json!({"key": format!("struct:{stmt_struct_name}"), "what": "statement struct not found or ambiguous", "text": format!("{} candidates", cands.len())}));
         out.insert("stmt_struct".into(), json!(stmt_struct_name));
@@ -728,6 +757,9 @@ pub fn translate(repo: &str) -> Value {
                                         let akey = format!("try_from/arm[{label}#{o}]");
                                         *o += 1;
                                         ev.key = akey.clone();
+                                        if arm.attrs.iter().any(|a| a.path().is_ident("cfg")) {
+                                            ev.oblige("cfg", "cfg-gated match arm", text(&arm.pat));
+                                        }
                                         let body = if let Some((_, g)) = &arm.guard {
                                             ev.oblige("guard", "match guard", text(&**g));
                                             json!({"k": "other", "text": format!("guard: {}", text(&**g))})
